@@ -412,8 +412,17 @@ def r3_exits(rule, root=None):
         [
             "letmut$C=false;for$G in0..solver.grad_index.len(){let$P=cur[$G];(cur[$G]-=step[$G]);($C|=($P!=cur[$G]));}".replace(" ", ""),
             "letmut$C=false;for$G in0..cur.len(){let$P=cur[$G];(cur[$G]-=step[$G]);($C|=($P!=cur[$G]));}".replace(" ", ""),
+            "letmut$C=false;for$G in0..solver.grad_index.len(){let$P=cur[$G];(cur[$G]-=step[$G]);if($P!=cur[$G]){$C=true;}}".replace(" ", ""),
+            "letmut$C=false;for$G in0..cur.len(){let$P=cur[$G];(cur[$G]-=step[$G]);if($P!=cur[$G]){$C=true;}}".replace(" ", ""),
         ],
     )
+    if m is None:
+        # an assertion or a comment between the flag and the loop changes nothing: match the loop, then the flag
+        for bound in ("solver.grad_index.len()", "cur.len()"):
+            for upd in ("($C|=($P!=cur[$G]));", "if($P!=cur[$G]){$C=true;}", "($C=($C||($P!=cur[$G])));"):
+                ml = t.fmatch(("for$G in0..%s{let$P=cur[$G];(cur[$G]-=step[$G]);%s}" % (bound, upd)).replace(" ", ""))
+                if ml is not None and t.fmatch("letmut$C=false;", bind={"$C": ml["$C"]}) is not None:
+                    m = ml
     if m is None:
         # the same update walking `cur` and `step` in lock step
         mz = t.fmatch("for($P,$D)incur.iter_mut().zip(step.iter()){let$Q=*$P;(*$P-=*$D);($C|=($Q!=*$P));}")
@@ -525,6 +534,19 @@ def r4_lm_step(rule, root=None):
                 if v is None:
                     return None
                 f = (f or 1.0) * (float(v) if b["op"] == "*=" else 1.0 / float(v))
+        for a_ in A.find(block, "Assign"):
+            if txt(a_["left"]) != "damping":
+                continue
+            r_ = A.strip(a_["right"])
+            if r_.get("k") == "Binary" and r_["op"] in ("*", "/"):
+                l2, r2 = A.strip(r_["left"]), A.strip(r_["right"])
+                if txt(l2) == "damping" and A.lit_value(r2) is not None:
+                    f = (f or 1.0) * (float(A.lit_value(r2)) if r_["op"] == "*" else 1.0 / float(A.lit_value(r2)))
+                    continue
+                if r_["op"] == "*" and txt(r2) == "damping" and A.lit_value(l2) is not None:
+                    f = (f or 1.0) * float(A.lit_value(l2))
+                    continue
+            return None
         return f
 
     fr, fa = factor(rose), factor(accepted)
@@ -665,7 +687,14 @@ def r6_damping_and_threshold(rule, root=None):
             continue  # the accept / reject test of a trial step
         val = _float_lit(other)
         # does this comparison decide an exit?
-        conds_break = any(any(n_ is b for n_ in A.walk(i_["cond"])) and "break" in str(A.ftxt(i_["then"])) for i_ in A.find(view, "If"))
+        breaking = [i_ for i_ in A.find(view, "If") if "break" in str(A.ftxt(i_["then"]))]
+        conds_break = any(any(n_ is b for n_ in A.walk(i_["cond"])) for i_ in breaking)
+        if not conds_break:
+            # `let solved = err == 0.0; .. if stalled || solved || .. { break }`
+            for l_ in A.find(view, "Let"):
+                nm_ = A.binding_name(l_["pat"])
+                if nm_ and l_.get("init") is not None and any(n_ is b for n_ in A.walk(l_["init"])):
+                    conds_break = any(re.search(r"(?<![\w.])%s(?![\w(])" % re.escape(nm_), str(A.ftxt(i_["cond"]))) for i_ in breaking)
         if not conds_break:
             continue
         n += 1
